@@ -1087,9 +1087,9 @@ def all_hands(rng, quick):
     cases = hd_corpus()
     n_corpus = len(cases)
     # EVERY interleaving of the picks of [Process.start() || a toggle] on a warm cache
-    full = [("swap", 0, [[["S"]], [["T", 1]]])]
+    full = [("swap", 0, [[["S"]], [["T", 1]]]), ("queries", 0, [[["S"]], [["T", 1]]])]
     if not quick:
-        full += [("queries", 0, [[["S"]], [["T", 1]]]), ("swap", 1, [[["S"]], [["T", 0]]])]
+        full += [("swap", 1, [[["S"]], [["T", 0]]])]
     for kind, f0, progs in full:
         for head in unit_perms([[1] * n for n in hd_counts(progs)]):
             cases.append(hd_case(kind, 0, f0, 1, progs, head))
@@ -1545,7 +1545,9 @@ def run(ctx):
     pool.shutdown()
     return {
         "corr_name": "Caches.trace (model) == real term_image getters/toggles over a scripted terminal; "
-                     "Caches.spec_trace (fresh computations under provenance) == observed",
+                     "Caches.spec_trace (fresh computations under provenance) == observed; CachesEnv.etrace key_window == the same "
+                     "with the library's own get_terminal_size() on a pty under COLUMNS / LINES; CachesHand.xstep under the "
+                     "schedule == real threads incl. the Process.start() hand-over",
         "evaluations": len(cases),
         "distinct_nontrivial": len(distinct),
         "rule": "corpus + random histories (1-20 ops) over resize / swap toggles / query toggles / set_cell_ratio "
@@ -1574,8 +1576,27 @@ def run(ctx):
                 "memo cold; quick: the caller's release and return kept together: 462) and of [first call || _invalidate_cache()] (210) "
                 "(thorough: at the grain of single picks, for every function, plus [call || disable;enable]), and random programs (two callers, enable/disable round trips, two "
                 "enablers, entries already present, initial flag) under random interleavings; picks of a thread that finds the lock "
-                "taken are part of the schedules (no-ops on the unchanged code).",
-        "samples": [describe(c) for c in cases[:2] + cases[14:15] + cases[len(CORPUS) - 4:len(CORPUS) - 3] + cases[len(CORPUS):len(CORPUS) + 3]],
+                "taken are part of the schedules (no-ops on the unchanged code).  PLUS (histogram.real_terminal; the last "
+                "extra.real_terminal_histories of the histories) histories run with the library's OWN get_terminal_size() (not replaced) "
+                "on a pty whose window — cells and pixels — is set with TIOCSWINSZ at the start, at every resize and when a resize "
+                "lands in the probe's body, the real ioctl serving get_cell_size, in a process environment holding COLUMNS / LINES "
+                "each absent (30%) / equal to the window at start-up, i.e. stale after the first resize (35%) / different (20%) / "
+                "unusable: 0, negative, not a number (15%), changed by 0-2 os.environ updates in mid-history; built around [getter; "
+                "resize of the window in columns AND rows; getter] for get_cell_size / DYNAMIC get_cell_ratio / the "
+                "terminal_size_cached probe, embedded in a random / aborted-computation / resize-in-body history; a corpus of 8 "
+                "boundary histories first.  PLUS (extra.handover_schedules) schedules of 2-3 real threads under the cooperative "
+                "scheduler running programs of Process.start() (utils._process_start_wrapper around a start that does not fork) / "
+                "enable_/disable_win_size_swap() or enable_queries() / get_cell_size(), parking points: every acquisition from outside "
+                "(about to acquire, acquired) and every complete release of the import-time lock and of the shared array's lock, the "
+                "creation of the shared array (about to copy, copied), its get_lock() (cache global rebound, lock global not yet), "
+                "inside get_cell_size's ioctl (flag not read yet) and at its cache write: a corpus, EVERY interleaving of the picks of "
+                "[Process.start() || enable_win_size_swap()] and of [Process.start() || enable_queries()] on a warm cache (330 each; "
+                "thorough: also with disable_win_size_swap()), and random programs (a getter as third thread, two starts, toggles there and back, "
+                "both kinds of invalidator, warm / cold) under random interleavings.",
+        "samples": ([describe(c) for c in cases[:1] + cases[14:15] + cases[len(CORPUS):len(CORPUS) + 1]
+                     + (cases[len(cases) - n_real:len(cases) - n_real + 1] + cases[-1:] if n_real else [])]
+                    + ([describe_hand(parts["hand"][0][3])] if parts.get("hand") else [])
+                    + [describe(c) for c in cases[1:2] + cases[len(CORPUS) - 4:len(CORPUS) - 3]])[:6],
         "histogram": hist,
         "mismatches": mismatches,
         "failures": failures,
@@ -1598,6 +1619,15 @@ def run(ctx):
             "which only decides whether the rest of the DA1 reply is drained, does not influence the value); the statement is about "
             "states in which no enable_queries() is between its flag write and its clear (a second enable_queries() that finds the "
             "flag already written returns while the first one still has its clear ahead)",
+            "where the cache key comes from: an active terminal exists and os.get_terminal_size() works on it (then the window "
+            "decides; with no active terminal the library itself falls back to shutil, and 'the terminal size' is by definition "
+            "what shutil reports); COLUMNS / LINES hold plain decimal numerals or non-numbers (Python's int() also accepts "
+            "surrounding blanks, a sign, underscores)",
+            "the cache hand-over: the shared array and its lock are created once per process (the first Process.start()); the "
+            "statement `_cell_size_cache[:] = ...` (load of the global, then the store into that object) and the comparison with "
+            "the cache key are one micro-step each; enable_queries() as an invalidator of the cell-size cache has the shape of a "
+            "win-size-swap toggle with _queries_enabled as the flag (its two memo invalidations before are CachesInval's); the "
+            "tty lock's hand-over in the same wrapper belongs to C14",
             "aborted computations: the exception is raised inside query_terminal (request write, tcsetattr, or the wait "
             "for the reply); an abort at other points (inside the ioctl, between Python statements by an asynchronous "
             "signal) is not modelled",
@@ -1622,6 +1652,16 @@ def run(ctx):
             "_queries_enabled, and after it returned); the cooperative scheduler lets exactly one controlled thread run at a time; "
             "what is left unfinished after the picks runs freely; the log of body starts / begins and returns of invalidations / call starts "
             "and returns is appended by the threads themselves while they hold the turn",
+            "real-terminal histories: the kernel's pty (TIOCSWINSZ / TIOCGWINSZ); utils._tty_fd is pointed at the pty's slave "
+            "side and utils.get_terminal_size is the function object utils.py defined (the driver never imports the test-suite "
+            "stubs, so every module that imported it by name holds the same object); queries still go to the scripted terminal; "
+            "the twin is given the window the driver set, not the function under test nor the environment",
+            "hand-over schedules: utils._cell_size_lock is an instance of a subclass of threading.RLock's type (so that "
+            "isinstance(lock, utils._rlock_type) holds) that parks and never blocks under the scheduler; utils.Array is replaced "
+            "by a factory returning a list subclass with get_lock() (nothing is forked: the start wrapped by "
+            "utils._process_start_wrapper is a stub, and utils.mp_RLock returns a thread lock for the tty lock's hand-over); the "
+            "rebinding statements themselves are not instrumented: the parking points before / after them are the array factory's "
+            "return and the call of get_lock()",
             "probe histories: the probe's body counts its runs and returns scripted objects; returned objects are "
             "identified by identity",
             "thread races use real threads (outcome is schedule-independent on correct code); CPython's RLock is trusted",
